@@ -70,7 +70,7 @@ func (c *monC18) After(m *Machine, s *Step) *Violation {
 	// (2) success is only reported for changes that are in storage
 	switch op.K {
 	case "register":
-		if loggedIn || strings.HasPrefix(r.Location, "/ok/register") {
+		if (loggedIn && after == s.Pid) || strings.HasPrefix(r.Location, "/ok/register") {
 			if _, ok := post.Users[s.Pid]; !ok {
 				return violation("C18", sig("success-without-save"), "registration of %q reported success (location %q, session %q) but the user is not in storage", s.Pid, r.Location, after)
 			}
